@@ -210,7 +210,9 @@ impl Check for C02 {
         segments(cfg).iter().map(|s| s.units()).sum()
     }
     fn case_timeout_s(&self, cfg: &Cfg) -> f64 {
-        cfg.tier.pick(60.0, 300.0)
+        // generous: on a heavily loaded machine the one-second batch compile
+        // of a unit has been seen to take more than a minute of wall time
+        cfg.tier.pick(240.0, 600.0)
     }
     fn run_unit(&self, unit: usize, cx: &mut Cx) {
         if !cx.case(SUB_SETUP) {
